@@ -1565,7 +1565,7 @@ func applyKMask(c *Case, m int) {
 // the naming file it would shadow layouts/, so it is only added when the target is the nearer one);
 // viaDefault makes n1 = layouts/base.vuego reached through the default rule (page names nothing).
 // end: -3 chain ends, -2 last names a missing file, j>=0 last names chain[j] again (0 = the page).
-func shapeCase(L, dirs, decoys int, viaDefault bool, end int, alt bool) Case {
+func shapeCase(L, dirs, decoys int, viaDefault bool, end int, alt int) Case {
 	c := Case{Page: File{Path: "pages/p.vuego"}}
 	dirOf := func(i int) string { // i = 0 is the page
 		if i == 0 || dirs&(1<<(i-1)) != 0 {
@@ -1583,7 +1583,10 @@ func shapeCase(L, dirs, decoys int, viaDefault bool, end int, alt bool) Case {
 		if i == 1 && viaDefault {
 			return "base"
 		}
-		if alt && i <= 4 {
+		if alt == 2 && i <= len(uniNames) {
+			return uniNames[(i-1+L)%len(uniNames)] // names beyond ASCII
+		}
+		if alt == 1 && i <= 4 {
 			return []string{"404", "true", "1.5", "2024"}[i-1] // names YAML reads as int / bool / float
 		}
 		return fmt.Sprintf("n%d", i)
@@ -1632,7 +1635,7 @@ func shapeCase(L, dirs, decoys int, viaDefault bool, end int, alt bool) Case {
 }
 
 var rapidDirs = []string{"layouts", "pages"}
-var rapidNames = []string{"a", "404", "true", "base"}
+var rapidNames = []string{"a", "404", "İstanbul", "base"}
 
 func genCase(t *rapid.T) Case {
 	c := Case{Page: File{Path: "pages/p.vuego"}}
@@ -1665,7 +1668,7 @@ func genCase(t *rapid.T) Case {
 	present[c.Page.Path] = true
 	// a layout name as written in front-matter, for a file living in dir
 	drawName := func(label, dir string, allowNone bool) string {
-		opts := []string{"a", "404", "true", "base", "a", "404", "p", "zz"}
+		opts := []string{"a", "404", "İstanbul", "base", "a", "İstanbul", "p", "zz"}
 		if allowNone {
 			opts = append(opts, "", "")
 		}
@@ -2073,6 +2076,59 @@ func rotateAfterFailure(c *Case, i, every int) {
 	}
 }
 
+// uniNames: layout file names beyond ASCII: Cyrillic, CJK, accented Latin (precomposed and with a
+// combining accent), Turkish dotted capital I / dotless i, sharp s, Greek with final sigma, emoji.
+var uniNames = []string{"статья", "記事", "artículo", "İstanbul", "ılık", "straße", "λόγος", "e\u0301cole", "😀page", "Ünïcode-ß"}
+
+// unicodeNames: for every such name a chain page -> NAME -> second NAME (in layouts/), NAME placed
+// next to the page or in layouts/, spelled plainly or with the .vuego suffix / as explicit path,
+// the page in pages/ or in a directory with a non-ASCII name; k values carry the names.
+func unicodeNames(s *stage) {
+	for n, name := range uniNames {
+		second := uniNames[(n+3)%len(uniNames)]
+		for _, pageDir := range []string{"pages", "страницы", "ページ"} {
+			for place := 0; place < 2; place++ { // 0 next to the page, 1 in layouts/
+				for form := 0; form < 2; form++ { // 0 plain, 1 with suffix / explicit path
+					dir := pageDir
+					if place == 1 {
+						dir = "layouts"
+					}
+					spelled := name
+					if form == 1 && place == 0 {
+						spelled = name + ".vuego"
+					} else if form == 1 {
+						spelled = "../layouts/" + name + ".vuego"
+					}
+					secondSpelled := second
+					if place == 0 {
+						secondSpelled = second // falls back to layouts/
+					}
+					c := Case{Page: File{Path: pageDir + "/p.vuego", Layout: spelled, K: "k-страница-値"},
+						Files: []File{{Path: dir + "/" + name + ".vuego", Layout: secondSpelled}, {Path: "layouts/" + second + ".vuego", K: kValue("layouts/" + second + ".vuego")}}}
+					if place == 0 && s.n%2 == 0 {
+						c.Files = append(c.Files, File{Path: "layouts/" + name + ".vuego", Layout: "zz"}) // shadowed by the file next to the page
+					}
+					if s.n%3 == 0 {
+						c.FillK = "k-fill-ü-ß-😀"
+					}
+					if s.n%2 == 1 {
+						c.Via = "renderfile"
+					}
+					rotateFS(&c, s.n)
+					rotateSpell(&c, s.n)
+					c.Page.NoBody = ""
+					for j := range c.Files {
+						c.Files[j].NoBody = ""
+					}
+					if !s.yield(c) {
+						return
+					}
+				}
+			}
+		}
+	}
+}
+
 var emptySpellings = []string{"", "bare", "quoted", "tilde"}
 
 // rotateEmpty writes "no layout" of the page and of the layout files in one of its spellings
@@ -2293,7 +2349,7 @@ func shapes(s *stage) {
 						continue // the page naming itself is emitted below
 					}
 					i := s.n
-					c := shapeCase(L, dirs, (i*5+3)%(1<<L), viaDefault, end, (i/2)%2 == 1)
+					c := shapeCase(L, dirs, (i*5+3)%(1<<L), viaDefault, end, (i/2)%3)
 					if !viaDefault && L > 0 && i%3 == 0 {
 						c.Files = append(c.Files, File{Path: basePath, Layout: "zz"}) // present but not due
 					}
@@ -2413,6 +2469,7 @@ func TestProp(t *testing.T) {
 		{"fill", "chains of 1-2 layouts x every subset of k sources x Fill as map / struct / pointer / typed map / embedding struct / pointer to it x 2 entry points", fillKinds},
 		{"pad", "one file of a 3-file chain with a front-matter block of 10..70000 bytes (scalar / list)", padded},
 		{"spell", "one file of a 3-file chain in every line-ending x fence-blanks x body/front-matter-only spelling", spellings},
+		{"unicode", "non-ASCII layout names x page directory x next to the page / in layouts/ x plain / .vuego-suffixed spelling", unicodeNames},
 		{"empty", "page layout key absent/empty in three spellings x base absent/present/continuing", emptyKeys},
 		{"shape", "chain shapes: lengths 0..5 x placements x endings x default/named", shapes},
 		{"enum", fmt.Sprintf("all layout graphs over %d layout files x 6 page options", len(slots)), func(s *stage) { allGraphs(s, slots) }},
